@@ -729,6 +729,13 @@ func init() {
 			s.assume(Implies(neg, Eq(um, Add(mul(Sub(sec, Const(64, 1)), 1000000), BinBV("bvsdiv", ns2, Const(64, 1000))))))
 			return []Value{&OpaqueV{Kind: "time.Time", T: t}}
 		},
+		"time.UnixMicro": func(s *State, fn *ssa.Function, args []Value, where string) []Value {
+			// the instant usec microseconds after the epoch: its UnixMicro is usec, for every int64
+			us := asTerm(args[0])
+			t := App("time_of_unixmicro", USort("Time"), us)
+			s.assume(Eq(App("time_unixmicro", BV(64), t), us))
+			return []Value{&OpaqueV{Kind: "time.Time", T: t}}
+		},
 		"(*sync.WaitGroup).Add":  logOnly("sync.WaitGroup.Add"),
 		"(*sync.WaitGroup).Done": logOnly("sync.WaitGroup.Done"),
 		"(*sync.WaitGroup).Wait": logOnly("sync.WaitGroup.Wait"),
